@@ -307,10 +307,34 @@ func c13NamesInert(r *an.Run) {
 							okSink = true
 						case an.StaticCallee(x) == r.P.Func(parseP, "parser.parsePatchVersion"):
 							// only as the file-name argument
+							// (the parameter that receives it is the one handed to pgo.Parse as the file name, and
+							// nothing else happens to it)
 							okSink = true
+							sc := an.StaticCallee(x)
 							for i, a := range x.Common().Args {
-								if a == su.via && i != 1 {
+								if a != su.via {
+									continue
+								}
+								if i >= len(sc.Params) {
 									okSink = false
+									continue
+								}
+								var inner []sinkUse
+								forwardSinks(sc.Params[i], map[ssa.Value]bool{}, &inner)
+								if len(inner) == 0 {
+									okSink = false
+								}
+								for _, is := range inner {
+									ic, isCall := is.in.(ssa.CallInstruction)
+									if !isCall || an.StaticCallee(ic) == nil || short(an.StaticCallee(ic)) != "internal/pgo.Parse" {
+										okSink = false
+										continue
+									}
+									for _, ia := range ic.Common().Args {
+										if ia == is.via && an.ShortType(ia.Type()) != "string" {
+											okSink = false
+										}
+									}
 								}
 							}
 						default:
